@@ -23,7 +23,7 @@ LEVEL = "exploration"
 RULE = (
     "SVC machine (idle -GO-> work[invoke] -> ok/err) x service kind {coroutine function, plain callable, child machine} "
     "x outcome {return, raise} x {onError declared, not declared} x entry variant {plain, entry raises CANCEL+GO so the "
-    "first result is queued behind a leave/re-enter pair}; environment scripts = GO at t=0 then all sequences up to the "
+    "first result is queued behind a leave/re-enter pair, invoking state compound and entered through a descendant target}; environment scripts = GO at t=0 then all sequences up to the "
     "length bound over {CANCEL, GO, SELF, NOP, STOP} at grid instants straddling the completion time; all schedule "
     "choices (tied timers, ready work before/after a tied timer); judged per activation: service started exactly once "
     "with the declared input, exactly one outcome processed while current (data = that activation's own result), stale "
@@ -55,11 +55,15 @@ def variants() -> List[tuple]:
                     continue
                 for entry in ("plain", "bounce"):
                     out.append((kind, outcome, onerr, entry))
+                # the invoking state is COMPOUND and GO targets one of its descendants (entry through an explicit child
+                # path), SELF still targets the state itself
+                out.append((kind, outcome, onerr, "plain", "compound"))
     return out
 
 
 def make(variant, rec, clock) -> Dict[str, Any]:
-    kind, outcome, onerr, entry = variant
+    kind, outcome, onerr, entry = variant[:4]
+    shape = variant[4] if len(variant) > 4 else "atomic"
     calls: List[int] = []
 
     def note(ev):
@@ -120,6 +124,10 @@ def make(variant, rec, clock) -> Dict[str, Any]:
             "err": {"entry": ["en:err"], "on": {"GO": "work", "BACK": "idle"}},
         },
     }
+    if shape == "compound":
+        cfg["states"]["work"].update(initial="w1", states={"w1": {}, "w2": {}})
+        for st in ("idle", "ok", "err"):
+            cfg["states"][st]["on"]["GO"] = "#m.work.w2"
     svc = {"coro": coro, "callable": plain, "child": child_machine}[kind]
     return dict(cfg=cfg, services={"S": svc}, actions={"od": od, "oe": oe},
                 guards={"first": lambda ctx, ev, p=None: not ctx.get("bounced")})
@@ -163,7 +171,8 @@ def scripts(maxlen: int) -> List[List[tuple]]:
 
 
 def judge(variant, engine, script, log, d) -> List[Tuple[str, str]]:
-    kind, outcome, onerr, entry = variant
+    kind, outcome, onerr, entry = variant[:4]
+    shape = variant[4] if len(variant) > 4 else "atomic"
     bad: List[Tuple[str, str]] = []
     acts: List[Dict[str, Any]] = []          # activations of `work`
     stop_called = False
